@@ -27,7 +27,9 @@ var bias = ls.Bias{
 	TaskKinds: []ls.TaskKind{ls.TInstant, ls.TGated, ls.TSleep, ls.TPanic, ls.TPanic, ls.TGatedPanic, ls.TGatedPanic, ls.TGatedPanic, ls.TNil},
 	MaxOps:    50,
 	Cancel:    true,
-	Deadline:  5,
+
+	PanicStreak: true,
+	Deadline:    5,
 }
 
 func TestScenarios(t *testing.T) {
@@ -52,6 +54,9 @@ func TestScenarios(t *testing.T) {
 		}
 		if res.PollersRan {
 			ev.Label("concurrent_status_pollers")
+		}
+		if p.Streak > 0 {
+			ev.Label(fmt.Sprintf("starts_with_%d_panics_in_a_row_on_one_lane", p.Streak))
 		}
 		ev.LabelN("status_calls", int64(res.StatusCalls))
 		ev.LabelN("exact_pending_checks_at_rest", int64(res.ExactPendingChecks))
